@@ -265,6 +265,13 @@ def register(R):
         single = calls(tr, '_submit_upload_request')
         multi = calls(tr, '_submit_multipart_request')
         out = {'exactly_one_mode': (B(len(single) + len(multi) == 1), ['C14', 'C04'])}
+        # C08: a size supplied by the user (e.g. during on_queued) -- also 0 -- suppresses the size discovery
+        first_mode = min([index_of(tr, e) for e in single + multi] or [len(tr)])
+        probes = [e for e in tr[:first_mode] if (e.kind == 'call' and e.name.endswith('OSUtils.get_file_size'))
+                  or (e.kind == 'ext' and e.name in ('fileobj_or_name.seek', 'fileobj_or_name.tell'))]
+        size0 = c.old.f(c.old.f(c.a_transfer_future, '_meta'), '_size')
+        size_after = c.new.f(c.new.f(c.a_transfer_future, '_meta'), '_size')
+        out['a_supplied_size_suppresses_the_size_discovery'] = (z3.Or(is_none(size0), B(not probes and size_after is size0)), ['C08'])
         fo = c.old.f(c.old.f(c.old.f(c.a_transfer_future, '_meta'), '_call_args'), 'fileobj')
         eng = c.engine
         is_str = eng.opaque_pred(fo, 'is_str')
@@ -307,7 +314,7 @@ def register(R):
         return out
 
     R.contract(
-        f'{UST}._submit', props=['C14', 'C01', 'C04', 'C11', 'C13'],
+        f'{UST}._submit', props=['C14', 'C01', 'C04', 'C11', 'C13', 'C08'],
         params=dict(SUBMIT_PARAMS, bandwidth_limiter=OptT(ObjT('s3transfer.bandwidth:BandwidthLimiter'))),
         checks=up_submit_checks,
         raises={'RuntimeError': unsupported_target, 'Exception': only_propagates},
@@ -1257,7 +1264,12 @@ def register(R):
         out = {'one_network_read_per_chunk': (B(len(rd) == 1), ['C02']),
                'immediate_write_tasks_are_run_once_each': (B((not immediate) or all(sum(1 for r in ran if r is t) == 1 for t in built)), ['C02', 'C16']),
                # a completed iteration is one whose chunk was accepted (the transfer was not done): it is handed to IO
-               'every_accepted_chunk_is_handed_to_io_exactly_once': (B(len(io_any) == 1), ['C02', 'C16'])}
+               'every_accepted_chunk_is_handed_to_io_exactly_once': (B(len(io_any) == 1), ['C02', 'C16']),
+               # C10 / C16: "the writes to any one destination are performed by one thread at a time in the order they were
+               # queued": except in the immediate-write task (a single GetObject feeds the destination) a request thread
+               # never runs a write task itself -- the chunk goes to the IO executor
+               'a_queued_download_never_writes_in_the_request_thread': (B(immediate or not [
+                   e for e in flat(evs) if e.kind == 'ext' and e.name in ('io_task.()', 'destfile.write', 'destfile.seek')]), ['C10', 'C16', 'C02'])}
         if len(io) == 1:
             env = io[0].extra['env']
             d = env['data']
